@@ -4,6 +4,8 @@ from datetime import timedelta
 
 import random
 
+from haiway import ctx
+
 from harness.legs import cfg_text, gen_traces, leg_m, leg_mutant, leg_r, leg_t_gen
 from harness.vloop import Falsy, VClock, VLoop
 
@@ -72,7 +74,8 @@ class ThrottleDriver:
 
     async def _caller(self, c):
         try:
-            r = await self.wrapped(c, tag="t")
+            async with ctx.scope(f"caller{c}"):     # callers call from inside their own scopes
+                r = await self.wrapped(c, tag="t")
             self.res[c - 1] = "val" if r is self.vals[c] else f"foreign value {r!r}"
         except asyncio.CancelledError:
             self.res[c - 1] = "cancelled"
